@@ -945,6 +945,20 @@ def history_dependent(f):
     steps = cfg.get('steps') or []
     if not steps:
         return None, 'no history scenario recorded'
+    if cfg.get('equivalent_to'):
+        # two calls whose argument objects have the same content but another construction history: same bytes
+        bad = []
+        for seed in (1, 2):
+            a = run_replay({'scenario': 'history', 'steps': [cfg['equivalent_to']]}, seed)
+            b = run_replay({'scenario': 'history', 'steps': [steps[0]]}, seed)
+            if 'crash' in a or 'crash' in b:
+                return None, (a, b)
+            oa, ob = a['steps'][0]['out'], b['steps'][0]['out']
+            pa = [_strip_ev({k: v for k, v in p.items() if k in ('result', 'proof', 'repeat')}) for p in oa.get('prove') or []]
+            pb = [_strip_ev({k: v for k, v in p.items() if k in ('result', 'proof', 'repeat')}) for p in ob.get('prove') or []]
+            if pa != pb or _strip_ev(oa.get('verify')) != _strip_ev(ob.get('verify')):
+                bad.append({'seed': seed, 'freshly constructed arguments': json.dumps(pa)[:300], 'arguments with a construction history': json.dumps(pb)[:300]})
+        return (len(bad) == 2), bad[:1]
     bad = []
     for seed in (1, 2):
         o = run_replay(cfg, seed)
